@@ -894,7 +894,13 @@ pub fn cmd_gen(args: &[String]) {
         gen_bursts(args[3].parse().unwrap(), args[2].parse().unwrap(), args[1].parse().unwrap());
         return;
     }
-    let p = profile(&args[0]);
+    // "<profile>+reent": the same histories with a weigher that looks its key up in the cache it
+    // belongs to (contains_key is a pure observation, so nothing else changes)
+    let (pname, reent) = match args[0].strip_suffix("+reent") {
+        Some(n) => (n.to_string(), true),
+        None => (args[0].clone(), false),
+    };
+    let p = profile(&pname);
     let seed: u64 = args[1].parse().unwrap();
     let count: u64 = args[2].parse().unwrap();
     let len: usize = args[3].parse().unwrap();
@@ -903,7 +909,11 @@ pub fn cmd_gen(args: &[String]) {
     let mut o = std::io::BufWriter::new(out.lock());
     use std::io::Write;
     for i in 0..count {
-        let b = gen_behaviour(&mut rng, &p, len, i);
+        let mut b = gen_behaviour(&mut rng, &p, len, i);
+        if reent {
+            b["cfg"]["weigher"] = json!(true);
+            b["cfg"]["reent"] = json!(true);
+        }
         writeln!(o, "{}", b).unwrap();
     }
 }
